@@ -60,6 +60,8 @@ def files():
     G.add_method(s2, "Other", M + "OtherReq", M + "C", http=("get", "/v1/{name=o/*}"))
     # an rpc of the second service that shares its NAME with a listed rpc of the first (Get / List on every service)
     G.add_method(s2, "GetA", M + "OtherReq", M + "G", http=("get", "/v1/{name=o/*}:a"))
+    # a service that declares no rpc at all: internal mode omits nothing, so it stays
+    G.add_service(fd, "S3")
     return [k, rs, fd]
 
 
@@ -143,8 +145,8 @@ def scenarios():
             if {k: v for k, v in dep_after.items() if k in dep_before} != {k: v for k, v in dep_before.items() if k in dep_after} or set(dep_after) != set(dep_before):
                 failures.append(dict(label, what="dependency protos changed"))
             if internal:
-                if kept_methods != set(all_methods) or _names(api) != _names(full):
-                    failures.append(dict(label, what="internal mode omitted something", methods=sorted(kept_methods)))
+                if kept_methods != set(all_methods) or _names(api) != _names(full) or {s.name for s in api.services.values()} != {s.name for s in full.services.values()}:
+                    failures.append(dict(label, what="internal mode omitted something", methods=sorted(kept_methods), services=sorted(s.name for s in api.services.values())))
                 for s in api.services.values():
                     for m in s.methods.values():
                         listed = f"acme.lab.v1.{s.name}.{m.name}" in sub
